@@ -43,6 +43,17 @@ type World struct {
 	// ServiceReadFault, when set, is consulted before every Get of a Service (kind "get"), List of Services (kind "list") and List of EndpointSlices (kind "slices"):
 	// a non-nil error is returned to the caller (an API server / cache read failing).
 	ServiceReadFault func(kind string) error
+
+	// LBClass, when set, is the --lb-class the component under test runs with; Stamp gives a Service that class.
+	LBClass string
+}
+
+// Stamp marks a Service object as belonging to the load-balancer class of this world (no-op without one).
+func (w *World) Stamp(obj *corev1.Service) {
+	if w.LBClass != "" && obj != nil {
+		c := w.LBClass
+		obj.Spec.LoadBalancerClass = &c
+	}
 }
 
 func NewWorld() *World { return &World{} }
